@@ -61,22 +61,28 @@ func (p RemotePackage) SourceAddr(subPath string) RemoteSource {
 
 func (p RemotePackage) subPathString(subPath string) string {
 	if subPath == "" {
-		// Easy case... the package address is also the source address
 		return p.String()
 	}
-
-	// The weird syntax we've inherited from go-getter expects the URL's
-	// query string to appear after the subpath portion, so we need to
-	// now tweak the package URL to be a sub-path URL instead.
+	// The sub-path is not part of the URL proper: the parser cuts it out of
+	// the raw address text (between the URL's path and its query string)
+	// before the rest is parsed as a URL. We must therefore insert it as raw
+	// text in that same position. Appending it to the URL's path instead
+	// would percent-encode it on the way out but not decode it on the way
+	// back in, so that e.g. "a b" would come back as "a%20b".
 	subURL := p.url // shallow copy
-	subURL.Path += "//" + subPath
-	if subURL.Scheme == p.sourceType {
-		return subURL.String()
+	query := ""
+	if subURL.RawQuery != "" || subURL.ForceQuery {
+		query = "?" + subURL.RawQuery
 	}
-	return p.sourceType + "::" + subURL.String()
+	subURL.RawQuery = ""
+	subURL.ForceQuery = false
+	ret := subURL.String() + "//" + subPath + query
+	if subURL.Scheme == p.sourceType {
+		return ret
+	}
+	return p.sourceType + "::" + ret
 }
 
-// SourceType returns the source type component of the package address.
 func (p RemotePackage) SourceType() string {
 	return p.sourceType
 }
